@@ -913,6 +913,14 @@ impl Engine for SerdeEngine {
         }
         // ---- concrete payload types through serde's own in-memory deserialisers ----
         concrete(c);
+        // ---- the same value inside payload types of other inline sizes and alignments ----
+        match c.p(1) % 5 {
+            0 => shaped::<Pad<16>>(&val, c),
+            1 => shaped::<Pad<160>>(&val, c),
+            2 => shaped::<Pad<1024>>(&val, c),
+            3 => shaped::<Over64>(&val, c),
+            _ => zst_unit(c),
+        }
         let nontrivial = depth >= 2 || injected_inside;
         let mut labels: Vec<&'static str> = vec![];
         if depth >= 2 {
@@ -930,6 +938,162 @@ impl Engine for SerdeEngine {
         labels.push(if human { "is_human_readable=true" } else { "is_human_readable=false" });
         let _ = alloc::case_end();
         CaseReport { viols: viol::take(), nontrivial, labels, trace: tr }
+    }
+}
+
+/// A payload type that (de)serialises exactly like the `Val` inside it but has another inline size / alignment
+/// (the handles allocate for the payload type, not for the serialised form).
+pub trait Shape: Serialize + for<'de> Deserialize<'de> + 'static {
+    const NAME: &'static str;
+    fn val(&self) -> &Val;
+}
+pub struct Pad<const N: usize> {
+    v: Val,
+    #[allow(dead_code)]
+    pad: [u64; N],
+}
+impl<const N: usize> Serialize for Pad<N> {
+    fn serialize<S: Serializer>(&self, s: S) -> Result<S::Ok, S::Error> {
+        self.v.serialize(s)
+    }
+}
+impl<'de, const N: usize> Deserialize<'de> for Pad<N> {
+    fn deserialize<D: Deserializer<'de>>(d: D) -> Result<Self, D::Error> {
+        Val::deserialize(d).map(|v| Pad { v, pad: [0x5151_5151_5151_5151; N] })
+    }
+}
+impl<const N: usize> Shape for Pad<N> {
+    const NAME: &'static str = "Val + inline padding";
+    fn val(&self) -> &Val {
+        &self.v
+    }
+}
+#[repr(align(64))]
+pub struct Over64 {
+    v: Val,
+}
+impl Serialize for Over64 {
+    fn serialize<S: Serializer>(&self, s: S) -> Result<S::Ok, S::Error> {
+        self.v.serialize(s)
+    }
+}
+impl<'de> Deserialize<'de> for Over64 {
+    fn deserialize<D: Deserializer<'de>>(d: D) -> Result<Self, D::Error> {
+        Val::deserialize(d).map(|v| Over64 { v })
+    }
+}
+impl Shape for Over64 {
+    const NAME: &'static str = "Val in a 64-byte-aligned struct";
+    fn val(&self) -> &Val {
+        &self.v
+    }
+}
+
+fn shaped<W: Shape>(val: &Val, c: &ByteCase) {
+    let what = format!("{} ({} bytes, align {})", W::NAME, std::mem::size_of::<W>(), std::mem::align_of::<W>());
+    let l0 = new_log(0);
+    let _ = Val::deserialize(ValDe { v: val, log: l0.clone() });
+    let dcalls = l0.borrow().calls.len();
+    drop(l0);
+    let mut ks: Vec<usize> = vec![0, 1, dcalls, dcalls + 1];
+    ks.push(1 + (c.p(2) as usize * (dcalls + 1)) / 256);
+    ks.push(1 + (c.p(3) as usize * (dcalls + 1)) / 256);
+    for &k in &ks {
+        let before = alloc::live_blocks().len();
+        let lv = new_log(k);
+        let (rv, _) = track(|| Val::deserialize(ValDe { v: val, log: lv.clone() }));
+        let la = new_log(k);
+        let (ra, ea) = track(|| Arc::<W>::deserialize(ValDe { v: val, log: la.clone() }));
+        let lu = new_log(k);
+        let (ru, eu) = track(|| UniqueArc::<W>::deserialize(ValDe { v: val, log: lu.clone() }));
+        if la.borrow().calls != lv.borrow().calls || lu.borrow().calls != lv.borrow().calls {
+            viol::report_sig(P, "D.de-trace", "deserialize:trace:shaped".into(), format!("{}: Arc/UniqueArc::deserialize drives the deserializer differently from the payload's own deserialiser (fault at {})", what, k));
+        }
+        match (&rv, &ra) {
+            (Ok(v), Ok(a)) => {
+                if a.val() != v || Arc::count(a) != 1 {
+                    viol::report_sig(P, "D.de-value", "Arc.deserialize:value:shaped".into(), format!("{}: Arc::deserialize produced {:?} (count {}), the payload's deserialiser {:?}", what, a.val(), Arc::count(a), v));
+                }
+                let hp = a.heap_ptr() as usize;
+                if !ea.allocs.iter().any(|b| b.ptr == hp) || hp % std::mem::align_of::<W>() != 0 {
+                    viol::report_sig(P, "D.de-fresh", "Arc.deserialize:fresh:shaped".into(), format!("{}: the Arc produced by deserialize does not live in a (suitably aligned) block allocated during the call", what));
+                }
+                // serialising the handle equals serialising the value
+                let (ls, lw) = (new_log(0), new_log(0));
+                let (r1, r2) = (v.serialize(RecSer(ls.clone())), a.serialize(RecSer(lw.clone())));
+                if ls.borrow().calls != lw.borrow().calls || r1 != r2 {
+                    viol::report_sig(P, "D.ser-trace", "Arc.serialize:trace:shaped".into(), format!("{}: Arc::serialize differs from the payload's serialisation", what));
+                }
+            }
+            (Err(e1), Err(e2)) => {
+                if e1 != e2 {
+                    viol::report_sig(P, "D.de-error", "Arc.deserialize:error:shaped".into(), format!("{}: Arc::deserialize failed with {:?} but the payload's deserialiser with {:?}", what, e2, e1));
+                }
+            }
+            (a, b) => viol::report_sig(P, "D.de-result", "Arc.deserialize:result:shaped".into(), format!("{}: payload deserialiser ok={} Arc deserialiser ok={}", what, a.is_ok(), b.is_ok())),
+        }
+        match (&rv, &ru) {
+            (Ok(v), Ok(u)) => {
+                if u.val() != v {
+                    viol::report_sig(P, "D.de-value", "UniqueArc.deserialize:value:shaped".into(), format!("{}: UniqueArc::deserialize produced a different value", what));
+                }
+            }
+            (Err(e1), Err(e2)) => {
+                if e1 != e2 {
+                    viol::report_sig(P, "D.de-error", "UniqueArc.deserialize:error:shaped".into(), format!("{}: UniqueArc::deserialize failed with {:?}, the payload with {:?}", what, e2, e1));
+                }
+            }
+            (a, b) => viol::report_sig(P, "D.de-result", "UniqueArc.deserialize:result:shaped".into(), format!("{}: payload deserialiser ok={} UniqueArc deserialiser ok={}", what, a.is_ok(), b.is_ok())),
+        }
+        drop(lv);
+        drop(la);
+        drop(lu);
+        for (name, failed, eff) in [("Arc", ra.is_err(), &ea), ("UniqueArc", ru.is_err(), &eu)] {
+            if failed {
+                let survivors = eff.allocs.iter().filter(|b| alloc::block_by_seq(b.seq).map(|x| x.live).unwrap_or(false)).count();
+                if survivors > 0 {
+                    viol::report_sig(P, "D.de-leak", format!("{}.deserialize:leak-on-error:shaped", name), format!("{}: {} blocks allocated during a failing {}::deserialize are still allocated (fault at {})", what, survivors, name, k));
+                }
+            }
+        }
+        drop(rv);
+        drop(ra);
+        drop(ru);
+        let after = alloc::live_blocks().len();
+        if after != before {
+            viol::report_sig(P, "D.de-leak", "deserialize:net-leak:shaped".into(), format!("{}: {} tracked blocks before, {} after dropping every result (fault at {})", what, before, after, k));
+        }
+    }
+}
+
+/// A zero-sized payload: `()` (serialises as unit).
+fn zst_unit(c: &ByteCase) {
+    for k in [0usize, 1, 2] {
+        let before = alloc::live_blocks().len();
+        let unit = Val::Unit;
+        let other = Val::U8(c.p(2));
+        for src in [&unit, &other] {
+            let lv = new_log(k);
+            let rv = <()>::deserialize(ValDe { v: src, log: lv.clone() });
+            let la = new_log(k);
+            let (ra, _) = track(|| Arc::<()>::deserialize(ValDe { v: src, log: la.clone() }));
+            if la.borrow().calls != lv.borrow().calls || rv.is_ok() != ra.is_ok() || rv.as_ref().err() != ra.as_ref().err() {
+                viol::report_sig(P, "D.de-trace", "Arc<()>.deserialize".into(), format!("Arc<()>::deserialize differs from <()>::deserialize (fault at {}): {:?} vs {:?}", k, ra.as_ref().map(|_| ()), rv));
+            }
+            if let Ok(a) = &ra {
+                let (ls, lw) = (new_log(0), new_log(0));
+                let (r1, r2) = (().serialize(RecSer(ls.clone())), a.serialize(RecSer(lw.clone())));
+                if ls.borrow().calls != lw.borrow().calls || r1 != r2 || Arc::count(a) != 1 {
+                    viol::report_sig(P, "D.ser-trace", "Arc<()>.serialize".into(), "Arc<()>::serialize differs from ().serialize, or the count is not 1".into());
+                }
+            }
+            drop(lv);
+            drop(la);
+            drop(ra);
+        }
+        if alloc::live_blocks().len() != before {
+            viol::report_sig(P, "D.de-leak", "Arc<()>.deserialize:leak".into(), format!("blocks leaked by Arc<()>::deserialize (fault at {})", k));
+        }
     }
 }
 
